@@ -558,7 +558,7 @@ with_conform(PROPS["C02"], "Buffer")
 with_conform(PROPS["C03"], "Buffer")
 with_conform(PROPS["C13"], "Channel")
 with_conform(PROPS["C16"], "Ctx")
-with_conform(PROPS["C05"], "WaitCond", "Buffer")
+with_conform(PROPS["C05"], "WaitCond", "Buffer", "Generic")
 
 def _bufconc(tags):
     return dict(family="bufconc", quick=60, thorough=3000, mismatch_is_violation=True, no_shrink=True, nontrivial=has(*tags),
@@ -573,10 +573,11 @@ PROPS["C02"]["corr"].append(_bufconc(["rollback_d2", "rollback", "commit"]))
 PROPS["C03"]["corr"].append(_bufconc(["evict_unread", "past_error", "shift", "consumer_closed"]))
 PROPS["C05"]["corr"].append(_bufconc(["get_pending"]))
 with_conform(PROPS["C04"], "Cleanup", "Buffer", "WaitCond")
-with_conform(PROPS["C12"], "Lifecycle", "Cleanup", "WaitCond", "Channel", "Ctx", "LockOrder")
+with_conform(PROPS["C12"], "Lifecycle", "Cleanup", "WaitCond", "Channel", "Ctx", "LockOrder", "Generic")
 PROPS["C12"]["theorems"] += ["BB.LockOrder.no_wait_cycle", "BB.LockOrder.no_deadlock_of_ranked"]
 with_conform(PROPS["C09"], "Exclusive")
-with_conform(PROPS["C10"], "Exclusive")
+with_conform(PROPS["C10"], "Exclusive", "Generic")
+with_conform(PROPS["C14"], "Generic")
 with_conform(PROPS["C08"], "Caster")
 with_conform(PROPS["C06"], "PubSub", "Caster")
-with_conform(PROPS["C07"], "PubSub", "Caster", "LockOrder")
+with_conform(PROPS["C07"], "PubSub", "Caster", "LockOrder", "Generic")
